@@ -29,7 +29,7 @@ func scenario(maxRetries int, rfIdx int, elapsed bool, cancelling bool) *explore
 	if cancelling {
 		name += "/ctxCancel"
 	}
-	return &explore.Scenario{Name: name, C: -1, DataOnly: true, Opts: vs.Options{Jitter: rfs[rfIdx] > 0}, Body: func() {
+	return &explore.Scenario{Name: name, C: -1, DataOnly: true, Opts: vs.Options{Jitter: true}, Body: func() {
 		initial := initials[vs.Choose(len(initials), 0, "InitialInterval")]
 		mult := multipliers[vs.Choose(len(multipliers), 0, "Multiplier")]
 		maxInt := 2 * initial
